@@ -25,7 +25,7 @@ STUBS = P.STUBS_PIPELINE + ["boto3 client: recording fake (every put_object is l
 ASSUMES = P.ASSUMES_PIPELINE
 OUTSIDE = ["the bootstrap estimator, historical evaluation writes, national-summary writes (same code path as prediction tables)",
            "ids longer than 3 characters in the CrossHair key contracts"]
-BOUNDS = {"quick": "every subset of {results, data, config, conformalization} x {local, non-local} x {NP, GA} x {gate passes, gate fails}, "
+BOUNDS = {"quick": "two-call sequences with model_parameters left out; every subset of {results, data, config, conformalization} x {local, non-local} x {NP, GA} x {gate passes, gate fails}, "
                    "1-2 interval levels; key builders with symbolic id strings <= 3 chars (CrossHair)", "thorough": "same, CrossHair timeout x4"}
 OPTS = {"quick": dict(case_timeout_s=900, solver_timeout_ms=30000), "thorough": dict(case_timeout_s=1800, solver_timeout_ms=60000)}
 OPTIONS = ["results", "data", "config", "conformalization"]
@@ -40,10 +40,45 @@ def cases(tier):
                 out.append(dict(name="%s_%s_%s" % (pi[:2], "pass" if enough else "gatefail", env), pi=pi, alphas=alphas, env=env,
                                 enough=enough, estimands=["turnout"], units=P.standard_units(n, 2, [P.U("c1_x0", "unexp")], cls=True),
                                 aggregates=["postal_code", "county_fips", "unit"], cut_calibration=True, weight=n))
+    # two calls in one process, the caller leaves model_parameters out: what the first call asked for must not stick
+    for env in ("local", "prod"):
+        out.append(dict(name="ga_sequence_%s" % env, kind="sequence", pi="gaussian", alphas=[0.7], env=env, estimands=["turnout"],
+                        units=P.standard_units(7, 2, [P.U("c1_x0", "unexp")], cls=True), aggregates=["postal_code", "county_fips", "unit"],
+                        cut_calibration=True, omit_model_parameters=True, weight=10))
     return out
 
 
+def run_sequence(ctx, case):
+    import elexmodel.client as cl
+    from . import c12
+
+    orig_env = cl.APP_ENV
+    cl.APP_ENV = case["env"]
+    d = tempfile.mkdtemp(prefix="verif_c18_")
+    cwd = os.getcwd()
+    os.chdir(d)
+    try:
+        c12.fresh_process_state()
+        sc = P.build(ctx, case)
+        pre, cur = sc.frames()
+        P.run_client(ctx, dict(case, save_output=["conformalization"]), sc=sc, frames=(pre.copy(), cur.copy()))
+        first = [p["Key"] for p in P.LAST_S3.puts]
+        P.run_client(ctx, dict(case, save_output=[]), sc=sc, frames=(pre.copy(), cur.copy()))
+        second = [p["Key"] for p in P.LAST_S3.puts]
+        files = sorted(os.path.relpath(os.path.join(dp, f), d) for dp, _, fs in os.walk(d) for f in fs)
+        c12.fresh_process_state()
+    finally:
+        os.chdir(cwd)
+        cl.APP_ENV = orig_env
+        shutil.rmtree(d, ignore_errors=True)
+    obl = [("the run that asks for conformalization data writes it (2 levels x 2 files)", len(first) == 4),
+           ("a later run with no options writes nothing anywhere (what an earlier run asked for does not stick)", second == [] and files == [])]
+    return obl, {}
+
+
 def run(ctx, case):
+    if case.get("kind") == "sequence":
+        return run_sequence(ctx, case)
     import elexmodel.client as cl
     from elexmodel.client import ModelNotEnoughSubunitsException
 
